@@ -21,6 +21,11 @@ CHECKS = {
          "Per rule (mask and regular-expression rules, including every regex rule of the bundled lists) TLC explores the product of the really compiled program with the Knuth-Morris-Pratt automaton of 'lower(url) contains shortcut' (spec/ShortcutSound.tla); the invariant 'accepted => shortcut seen' is emptiness of L(pattern) minus 'contains shortcut' for ALL strings. Witnesses are confirmed on the real Match/regexp before being reported.",
          "Trusted: regexp/syntax, Inst.MatchRune, alphabet 33..126, TLC. Programs above 400 instructions are skipped and counted.",
          "6/C05"),
+ "C04": ("model_checking",
+         "TLC-enumerated rule x request rows of the TLA+ Match conjunction replayed into NetworkRule.Match; TLC trace validation of grammar-random executions",
+         "The specification (spec/Rule.tla, Domains.tla, Mask.tla) states Match as the conjunction of the mask pattern on the proper target and every modifier. TLC enumerates every value set of each modifier family and pairs of families against a structured request universe and checks monotonicity/axioms; every row is replayed into the real parser and Match in three renderings (value orders, spellings). In the other direction a seeded grammar driver (any subset of modifiers, 1-6 values, IPv4/IPv6/CIDR/quoted clients) runs the real code and TLC validates every event against the same operator.",
+         "Trusted: TLC; the renderer (abstract rule -> text), cross-checked against the parsed rule's exported accessors; PSL answers and derived request fields are logged environment inputs; mask patterns only (regex rules are Go regexp semantics).",
+         "6/C04"),
 }
 
 NOT_YET = "check not built yet in this session (see DESIGN.md section 6 for the planned TLA+ decision procedure)"
